@@ -101,6 +101,7 @@ func Reset() {
 	}
 	EdgeTriggered = false
 	FaultBudget, FaultCount, FaultFD, FaultCall = 0, 0, -1, ""
+	FaultedFD = [NFD]bool{}
 	ForeignTouch, DoubleClose, CtlOnClosed = 0, 0, 0
 	MaxReads = 3
 	MaxWrites = 3
@@ -120,6 +121,8 @@ func touch(fd int, call string) {
 	}
 }
 
+var FaultedFD [NFD]bool // descriptors on whose behalf an injected failure happened
+
 // fault: may this call fail with an injected errno?
 func fault(fd int, call string) (unix.Errno, bool) {
 	if FaultBudget <= 0 {
@@ -134,6 +137,9 @@ func fault(fd int, call string) (unix.Errno, bool) {
 	FaultCount++
 	FaultFD = fd
 	FaultCall = call
+	if fd >= 0 && fd < NFD {
+		FaultedFD[fd] = true
+	}
 	return faultErrnos[k], true
 }
 
